@@ -30,8 +30,9 @@ Kinds == << "deadlock",                  \* C13: a listen/close call did not ret
             "connection-left-hanging",   \* C12: accepted connection neither served nor closed
             "goroutine-leak",            \* C12: something keeps running after the last close
             "wrong-source-address",      \* C12/C04: the source address returned with a datagram is not (or does not stay) the sender's
-            "item-lost" >>               \* C12: a connection/datagram was never delivered although, from its arrival on, some
+            "item-lost",                 \* C12: a connection/datagram was never delivered although, from its arrival on, some
                                          \*      handle of its address was open all the time and a call was still waiting
+            "call-panicked" >>           \* C12/C13: a listen/close/accept call panicked instead of returning
 NK == Len(Kinds)
 KindIdx(s) == CHOOSE i \in 1..NK : Kinds[i] = s
 
@@ -147,11 +148,15 @@ TrAddrCheck == /\ Is("AddrCheck")
                /\ Flag(IF E.atReturn # E.sender \/ E.atEnd # E.sender THEN {"wrong-source-address"} ELSE {})
                /\ UNCHANGED <<closeStarted, closeDone, acc, delivered, nsched, ndrift, keyOf, itemKey, gap, closedAtSend>>
 
-TrOther == /\ l <= Len(Trace) /\ E.ev \in {"ListenStart", "Replayed", "End", "Free"} /\ l' = l + 1
+TrPanic == /\ Is("Panic")
+           /\ Flag({"call-panicked"})
+           /\ UNCHANGED <<closeStarted, closeDone, acc, delivered, nsched, ndrift, keyOf, itemKey, gap, closedAtSend>>
+
+TrOther == /\ l <= Len(Trace) /\ E.ev \in {"ListenStart", "Replayed", "End", "Free", "Churn"} /\ l' = l + 1
            /\ UNCHANGED <<closeStarted, closeDone, acc, delivered, vio, nsched, ndrift, keyOf, itemKey, gap, closedAtSend>>
 
 Next == TrSched \/ TrListenEnd \/ TrCloseStart \/ TrCloseEnd \/ TrAcceptStart \/ TrAcceptEnd \/ TrStuck
-        \/ TrRebind \/ TrItemFate \/ TrLeak \/ TrOther \/ TrConnect \/ TrConnectStart \/ TrCleanupStart \/ TrAddrCheck
+        \/ TrRebind \/ TrItemFate \/ TrLeak \/ TrOther \/ TrConnect \/ TrConnectStart \/ TrCleanupStart \/ TrAddrCheck \/ TrPanic
 Spec == Init /\ [][Next]_tvars
 
 Report == (l = Len(Trace) + 1) => PrintT(<<"RESULT", l - 1, nsched, ndrift, vio>>)
